@@ -79,7 +79,9 @@ def apply_edit(engine, ed: dict) -> None:
         b = engine.rule_blocks[ed["b"] % len(engine.rule_blocks)]
         r = b.rules[ed["r"] % len(b.rules)]
         was_loaded = r.is_loaded()
-        r.text = ed["text"]
+        weight = r.weight
+        r.text = ed["text"]  # (the text carries no weight: the rule keeps the one it has, as the spec side does)
+        r.weight = weight
         if was_loaded:
             r.load(engine)
     elif t == "same_value":
@@ -223,7 +225,8 @@ def gen_edit(rng, spec: dict) -> dict:
                         unit.append(w)
                 n = rng.choice([120, 400, 400])
                 conn = rng.choice(["and", "or"])
-                text = "if " + f" {conn} ".join([" ".join(unit)] * n) + " " + " ".join(words[end:])
+                tail = words[end:words.index("with")] if "with" in words else words[end:]
+                text = "if " + f" {conn} ".join([" ".join(unit)] * n) + " " + " ".join(tail)
                 return {"t": "long_rule", "b": bi, "r": ri, "n": n, "text": text}
         if rng.random() < 0.06:
             bi = rng.randrange(len(spec["blocks"]))
